@@ -100,7 +100,7 @@ class Flow:
         return ci.name
 
     # ------------------------------------------------------------------ member evaluation
-    def member_val(self, obj: Obj, name: str, args: Optional[Dict[str, Val]] = None, after: Optional[ClassInfo] = None) -> Val:
+    def member_val(self, obj: Obj, name: str, args: Optional[Dict[str, Val]] = None, after: Optional[ClassInfo] = None, lits: Optional[Dict[str, ast.expr]] = None) -> Val:
         ci = obj.cls
         if self.is_leaf_cls(ci):
             v = self._leaf_read(obj, name)
@@ -124,7 +124,7 @@ class Flow:
             if ts:
                 return Val(frozenset(self.ext_obj(t) for t in ts), frozenset())
             return Val(frozenset(), frozenset([f"FIELD:{ci.name}.{name}"]))
-        key = (obj, m.cls.qual, m.name, tuple(sorted((k, v) for k, v in (args or {}).items())) if args else ())
+        key = (obj, m.cls.qual, m.name, tuple(sorted((k, v) for k, v in (args or {}).items())) if args else (), tuple(sorted((k, u(v)) for k, v in lits.items())) if lits else ())
         if key in self.memo:
             return self.memo[key]
         if key in self.busy or self.depth > self.max_depth:
@@ -133,7 +133,16 @@ class Flow:
         self.depth += 1
         try:
             self.evaluated_members += 1
-            body = SUMMARIZER.summarize(m.node)
+            if lits:
+                # a helper called with LITERAL arguments (names of members, flags, tuples of names): its summary specialised
+                # for them - `getattr(cube, name)` becomes the attribute, a search loop over the tuple is unrolled
+                import copy as _copy
+
+                from .symex import fold, fold_consts
+
+                body = fold_consts(fold(SUMMARIZER.summarize(m.node, {k: _copy.deepcopy(v) for k, v in lits.items()})))
+            else:
+                body = SUMMARIZER.summarize(m.node)
             env: Dict[str, Val] = dict(args or {})
             # default values for unbound params
             a = m.node.args
@@ -398,6 +407,39 @@ class Flow:
                 return acc
             if f.id in env:
                 return env[f.id] | argdata
+            if f.id == "map" and len(e.args) >= 2:
+                # map(fn, xs, ys): fn called with the ELEMENTS of the iterables
+                env2 = dict(env)
+                names = []
+                for k, v in enumerate(pos[1:]):
+                    env2[f"__map{k}"] = Val(self._elem_objs(v.objs), v.reads, v.strs)
+                    names.append(ast.Name(id=f"__map{k}", ctx=ast.Load()))
+                return self.eval_call(ast.Call(func=e.args[0], args=names, keywords=[]), obj, m, env2) | argdata
+            # a private FUNCTION of the module the calling member lives in: its summary with the parameters bound
+            owner = m.cls.module if m is not None else obj.cls.module
+            fn = owner.functions.get(f.id) if f.id.startswith("_") else None
+            if fn is not None and not fn.args.vararg and not fn.args.kwarg:
+                params = [a.arg for a in fn.args.posonlyargs + fn.args.args]
+                key = ("FN", owner.short, f.id, tuple(pos), tuple(sorted(kw.items())))
+                if key in self.memo:
+                    return self.memo[key]
+                if key in self.busy or self.depth > self.max_depth:
+                    return argdata
+                self.busy.add(key)
+                self.depth += 1
+                try:
+                    fenv: Dict[str, Val] = dict(zip(params, pos))
+                    fenv.update({k: v for k, v in kw.items() if k in params})
+                    defaults = dict(zip(params[len(params) - len(fn.args.defaults):], fn.args.defaults))
+                    for p_ in params:
+                        if p_ not in fenv:
+                            fenv[p_] = self.eval(defaults[p_], obj, m, {}) if p_ in defaults else BOT
+                    v = self.eval(SUMMARIZER.summarize(fn), obj, m, fenv)
+                finally:
+                    self.depth -= 1
+                    self.busy.discard(key)
+                self.memo[key] = v
+                return v
             # builtin (len, int, range, isinstance, ...): data of args
             return argdata
         if isinstance(f, ast.Attribute):
@@ -419,7 +461,7 @@ class Flow:
                     continue
                 args = self._bind_args(mm, pos, kw)
                 tgt = Obj(o.cls, o.bind, False) if o.is_class and mm.kind == "classmethod" else o
-                out = out | self.member_val(tgt, f.attr, args)
+                out = out | self.member_val(tgt, f.attr, args, lits=self._literal_args(mm, e))
             if not handled and recv.objs:
                 # method on a container of package objects (e.g. elements.get_by_id)
                 pass
@@ -478,6 +520,25 @@ class Flow:
             for nm in names:
                 if self.repo.lookup(o.cls, nm) is not None or o.field(nm) is not None:
                     out = out | self.member_val(o, nm)
+        return out
+
+    @staticmethod
+    def _literal_args(mm: Member, e: ast.Call) -> Optional[Dict[str, ast.expr]]:
+        def lit(x):
+            if isinstance(x, ast.Constant) and isinstance(x.value, (str, bool, int)) or (isinstance(x, ast.Constant) and x.value is None):
+                return True
+            return isinstance(x, (ast.Tuple, ast.List)) and all(isinstance(y, ast.Constant) and isinstance(y.value, (str, bool, int)) for y in x.elts)
+
+        out: Dict[str, ast.expr] = {}
+        for p_, a in zip(mm.params, e.args):
+            if lit(a):
+                out[p_] = a
+        for k in e.keywords:
+            if k.arg in mm.params and lit(k.value):
+                out[k.arg] = k.value
+        # only worth a specialised summary when a NAME (string) is among them: flags are handled by Val.flag already
+        if not any(isinstance(n, ast.Constant) and isinstance(n.value, str) for v in out.values() for n in ast.walk(v)):
+            return None
         return out
 
     @staticmethod
